@@ -1211,5 +1211,5 @@ fn nontrivial(op: &str, args: &[&str]) -> bool {
 
 fn main() {
     harness_main(Spec { prop: "C04", gen, exec, nontrivial, hang_secs: 30,
-        rule: "31 public two-operand ops (table at the top of harness/src/bin/c04.rs: patterns B, G, GM, IB, R, RA) + clip (R3). Exhaustive: every op x every ordered pair of shapes rank<=3 len<=3 (39^2 = 1521, compatible or not) x element types i32,i64,u8,f64 in both tiers (atan2/hypot are not defined for u8; copysign/nextafter/ldexp f64 only); values drawn without repetition from per-type pools (small ints, ints near +-2^31 and 2^53, +-0.0, subnormals, +-inf, NaN, large finite), divisors never zero, shift counts 0..7, gcd/lcm operands |x|<=60. Streams: corpus; clip with random bound shapes; commutativity op(a,b)==op(b,a) on the code for the 14 commutative ops (all equal shapes + sampled compatible pairs); refusal (a zero, for f64 +0.0 or -0.0, written into the divisor array of the 6 division-family ops); seeded random rank<=4 len<=4 mostly compatible; zero-length operands. Oracle per output position p with model sources (i,j): out[p] == kernel(a[i],b[j]) bit-exactly (NaN canonicalised), kernel = formula written natively in the harness (own casts, std f64 methods; every op) AND the same op on the one-element arrays [a[i]],[b[j]]. ROBUSTNESS STREAMS: every case is executed on three receivers - a.op(&b), Ok(a).op(&b) through impl for Result<Array<N>,ArrayError> (bit-identical answer required) and Err(_).op(&b) (must stay an error); element types i8,i16,u16,u32,u64,f32 added (every op x the 1521 shape pairs: all in thorough, one new type per pair in rotation + all on the rank<=2 pairs in quick) with values at the limits of each type (saturation of the f64 round trip), extended pools for i32/i64/f64 (beyond 2^53, at i64::MIN/MAX, around 2^63/2^64/f32::MAX, divisors below f64::EPSILON / f32 subnormal); sizes: every op x big_shapes() (axis lengths 7..17, > 256 / 1024 / 4096 elements) with the argument, the receiver or both operands stretched; zero-length: every op x zero_shapes() in either position; refusal with the zero (+0.0/-0.0) at the last/middle/first position of divisors up to 4900 elements for every element type; clip on all 10 types, big and zero-length receivers; commutativity on the new types and on big shapes; seeded random on all types with one long axis. distinct = distinct case lines; non-trivial = compatible shapes with some operand stretched along an axis of result length > 1, or a refusal case, or a comm case with more than one element" });
+        rule: "31 public two-operand ops (table at the top of harness/src/bin/c04.rs: patterns B, G, GM, IB, R, RA) + clip (R3). Exhaustive: every op x every ordered pair of shapes rank<=3 len<=3 (39^2 = 1521, compatible or not) x element types i32,i64,u8,f64 in both tiers (atan2/hypot are not defined for u8; copysign/nextafter/ldexp f64 only); values drawn without repetition from per-type pools (small ints, ints near +-2^31 and 2^53, +-0.0, subnormals, +-inf, NaN, large finite), divisors never zero, shift counts 0..7, gcd/lcm operands |x|<=60. Streams: corpus; clip with random bound shapes; commutativity op(a,b)==op(b,a) on the code for the 14 commutative ops (all equal shapes + sampled compatible pairs); refusal (a zero, for f64 +0.0 or -0.0, written into the divisor array of the 6 division-family ops); seeded random rank<=4 len<=4 mostly compatible; zero-length operands. Oracle per output position p with model sources (i,j): out[p] == kernel(a[i],b[j]) bit-exactly (NaN canonicalised), kernel = formula written natively in the harness (own casts, std f64 methods; every op) AND the same op on the one-element arrays [a[i]],[b[j]]. ROBUSTNESS STREAMS: every case is executed on three receivers - a.op(&b), Ok(a).op(&b) through impl for Result<Array<N>,ArrayError> (bit-identical answer required) and Err(_).op(&b) (must stay an error); element types i8,i16,u16,u32,u64,f32 added (every op x the 1521 shape pairs: all in thorough, one new type per pair in rotation + all on the rank<=2 pairs in quick) with values at the limits of each type (saturation of the f64 round trip), extended pools for i32/i64/f64 (beyond 2^53, at i64::MIN/MAX, around 2^63/2^64/f32::MAX, divisors below f64::EPSILON / f32 subnormal); sizes: every op x big_shapes() (axis lengths 7..17, > 256 / 1024 / 4096 elements) with the argument, the receiver or both operands stretched; zero-length: every op x zero_shapes() in either position; refusal with the zero (+0.0/-0.0) at the last/middle/first position of divisors up to 4900 elements for every element type; clip on all 10 types, big and zero-length receivers; commutativity on the new types and on big shapes; seeded random on all types with one long axis. PART 2: aliasing - every op x every element type with one array text on both sides (NaN, +-inf, +-0.0, f64::MAX, integer limits inside; shapes rank<=2 len<=3, [7], [3,3,3], [17,16], rank 5, [16385]): additionally a.op(&a) with the SAME OBJECT, bit-identical answer required (ALIAS-DIVERGENCE); hidden state - `seq` lines (several calls on one thread, each compared with the model): operand shapes colliding under h*m+dim for m = 31, 33, 37, 131, 257 ([2,1] x [1,1+m] and rank-3 forms) as the operands of one call in both orders, as clip bounds, and as the arguments of consecutive calls on one receiver; transposed / equal-count shapes; same shapes with the first operand rotated or one value replaced by its neighbour; refused (incompatible shapes, zero in the divisor) then accepted calls; seeded random interleavings of ops / types / shapes; an A-B-A re-run of the previous case after EVERY case of up to 3000 characters (STATE-DIVERGENCE); huge - every op on equally shaped operands of 16 385 / 16 899 / 20 000 elements ([100,200], [16385], [129,131], [20000]) and on stretched operands up to 140 000 elements ([130,130] x [130,1], [40,30,30] x [40,1,30], [2,70000] x [2,1], [70000,2] x [2], [130,1] x [1,130]), types in rotation, comm and clip on huge shapes, one op per family per run on [70000] x [2,1] / [2,70000] x [70000] (an unstretched axis above 65 536); every axis length 1..300 in a non-leading position; ranks 5..8; edge values (f64::MAX and neighbours, f32::MAX, largest subnormal, 1 -+ EPSILON). distinct = distinct case lines; non-trivial = compatible shapes with some operand stretched along an axis of result length > 1, or a refusal case, or a comm case with more than one element" });
 }
